@@ -23,7 +23,7 @@ def main():
             names += [f for m, f, _ in build.harness_fns(os.path.join(build.VERIF, 'harness')) if m == a]
     out = tempfile.mkdtemp(prefix='mirsym-run-')
     t = time.time()
-    res = run.explore(eng, names, out, jobs=jobs)
+    res = run.explore(eng, names, out, jobs=jobs, deadline=time.time() + 1500)
     for n, recs in res.items():
         s = run.summarize(recs)
         print(n, json.dumps(s))
